@@ -1134,8 +1134,8 @@ class World:
         if k == "select":
             if not isinstance(got, list):
                 return "returned %r" % (got,)
-            a = sorted(catalog.canon(canon_value(x)) for x in got)
-            b = sorted(catalog.canon(canon_value(x)) for x in want)
+            a = sorted(catalog.canon(canon_value(_numnorm(x))) for x in got)
+            b = sorted(catalog.canon(canon_value(_numnorm(x))) for x in want)
             if a != b:
                 return "returned %r, model %r" % (got, want)
             keys = op["keys"] if isinstance(op["keys"], list) else \
@@ -1597,6 +1597,24 @@ class World:
     def judge_degraded(self, ctx):
         from . import faults
         faults.judge_degraded(self, ctx)
+
+
+def _numnorm(v):
+    """1 and 1.0 are the same stored value (Python ==); normalise numbers so
+    that canonical text compares like ==."""
+    if isinstance(v, tuple):
+        return tuple(_numnorm(x) for x in v)
+    if isinstance(v, bool) or not isinstance(v, (int, float)):
+        return v
+    if isinstance(v, int):
+        try:
+            f = float(v)
+        except OverflowError:
+            return v
+        return f if f == v else v
+    if v == 0:
+        return 0.0
+    return v
 
 
 def _same_num(a, b):
